@@ -353,6 +353,8 @@ func (c *ShardedMapOf[V]) Restore(r io.Reader) (int, error) {
 		h := xxhash.Sum64(e.K)
 		b := &c.hashedBuckets[h%shards]
 
+		c.t.entryRestored(e.E)
+
 		b.Lock()
 		b.data[h] = &e
 		b.Unlock()
